@@ -98,3 +98,16 @@ Theorem C07_alpha_lossless_chunk_exact_with_spec_decoder : forall rs w h filter 
   alpha_decode ((1 + 4 * filter + r16) :: skipn 5 (emit p)) w h = Ok (concat rs).
 Proof. exact alpha_lossless_chunk_exact. Qed.
 Print Assumptions C07_alpha_lossless_chunk_exact_with_spec_decoder.
+
+(** End to end: the whole lossy file with the ALPH chunk written at AlphaQuality
+    100 — VP8 frame emitted from any well-formed set of encoder choices, any
+    prediction filter, any well-formed plan of the lossless coder for the
+    filtered plane, any metadata within the size guard, the container written
+    by the writer model — is a well-formed WebP file from which the independent
+    analysis (chunk walk + ALPH model with the VP8L specification decoder inside)
+    reads back exactly the alpha plane that was given.  Statement:
+    Conform.ConformEndToEndLossy.lossy_alpha_file_conformant_statement. *)
+From Webp Require Conform.ConformEndToEndLossy.
+Theorem C07_alpha_exact_in_written_file : ConformEndToEndLossy.lossy_alpha_file_conformant_statement.
+Proof. exact ConformEndToEndLossy.lossy_alpha_file_conformant. Qed.
+Print Assumptions C07_alpha_exact_in_written_file.
